@@ -8,6 +8,20 @@ from .source import Index
 from .verify import solve, verify_function
 
 
+_OBS = []
+
+
+def _solve_one(i):
+    import os
+
+    ob = _OBS[i]
+    v = solve(ob, timeout_ms=int(os.environ.get("PYVC_TIMEOUT_MS", "10000")), use_cli=os.environ.get("PYVC_NOCLI") is None)
+    mv = None
+    if v.model is not None:
+        mv = {k: str(v.model.eval(x.t, model_completion=True)) for k, x in ob.model_vars.items()}
+    return i, v.status, v.secs, v.detail, mv
+
+
 def main(argv):
     import os
 
@@ -26,12 +40,22 @@ def main(argv):
                 _k.ensures.append("1 == 2")
         r = verify_function(idx, reg, q)
         print("== %s paths=%d obligations=%d gen=%.2fs errors=%s outcomes=%s" % (q, r.paths, len(r.obligations), time.time() - t0, r.errors, r.outcomes))
-        for ob in r.obligations:
-            v = solve(ob)
-            if v.status != "discharged" or verbose:
-                print("  %-11s %-60s %.2fs %s %s" % (v.status, ob.name, v.secs, v.detail, ob.note[:80]))
-                if v.model is not None:
-                    mv = {k: v.model.eval(x.t, model_completion=True) for k, x in ob.model_vars.items()}
+        jobs = int(os.environ.get("PYVC_JOBS", "1"))
+        if jobs > 1:
+            # developer convenience: solve the obligations of this function in forked workers (same verdicts)
+            import multiprocessing as mp
+
+            _OBS[:] = r.obligations
+            with mp.get_context("fork").Pool(jobs) as pool:
+                results = pool.map(_solve_one, range(len(_OBS)), chunksize=1)
+        else:
+            _OBS[:] = r.obligations
+            results = [_solve_one(i) for i in range(len(_OBS))]
+        for i, status, secs, detail, mv in results:
+            ob = r.obligations[i]
+            if status != "discharged" or verbose:
+                print("  %-11s %-60s %.2fs %s %s" % (status, ob.name, secs, detail, ob.note[:80]))
+                if mv is not None:
                     print("     model:", mv, "path", ob.path)
                 rc = 1
     return rc
